@@ -216,7 +216,8 @@ Proof.
   intros Hg Hwf Hk Hin Hm Hne Himp.
   destruct (kf_zero c gv Hg Hk) as [_ [Hsafe Hext]].
   assert (Hnd : NoDup (gv ++ map fst (c_aggs c))).
-  { unfold wf in Hwf. rewrite Hg in Hwf. now apply (nodupb_spec _ N_eqb_spec). }
+  { unfold wf in Hwf. rewrite Hg in Hwf. apply andb_true_iff in Hwf.
+    now apply (nodupb_spec _ N_eqb_spec). }
   assert (Hsub : forall r, In r (snd g) -> In r (c_input c)).
   { intros r. rewrite Hm, members_In. tauto. }
   destruct (group_row_ok gv (c_aggs c) Hnd (snd g) (fst g)) as [row [Hrow [Hkey [Hdom Hadm]]]]; auto.
@@ -224,9 +225,19 @@ Proof.
     unfold all_aggs. apply in_or_app. auto. }
   { intros r. rewrite Hm, members_In. tauto. }
   exists row. unfold group_out. rewrite Hrow. split; [|split; [exact Hkey|]].
-  - unfold having_holds. destruct (c_having c) as [[[ha op] n]|] eqn:Eh; auto.
-    destruct (agg_run_some ha (snd g)) as [o ->]; auto.
-    apply Hsafe; auto. unfold all_aggs. rewrite Eh. apply in_or_app. simpl; auto.
+  - unfold having_holds. destruct (c_having c) as [[ha op n|v ne iri]|] eqn:Eh; auto.
+    + destruct (agg_run_some ha (snd g)) as [o ->]; auto.
+      apply Hsafe; auto. unfold all_aggs. rewrite Eh. apply in_or_app. simpl; auto.
+    + assert (Hv : In v gv).
+      { unfold wf in Hwf. rewrite Hg, Eh in Hwf. apply andb_true_iff in Hwf.
+        apply (memb_In _ N_eqb_spec). tauto. }
+      assert (Hgv : gv <> []) by (intros E; rewrite E in Hv; destruct Hv).
+      assert (Hall : forall r, In r (snd g) -> key_of gv r = fst g).
+      { intros r. rewrite Hm, members_In. tauto. }
+      destruct (snd g) as [|r0 ms] eqn:Es; [exfalso; apply (Hne Hgv); reflexivity|].
+      rewrite (sample_const v (lookup v r0) (r0 :: ms)); [reflexivity| |discriminate].
+      intros r Hr. apply key_of_eq with (gv := gv); auto.
+      rewrite (Hall r Hr). symmetry. apply Hall. simpl; auto.
   - unfold row_ok. rewrite Hkey, <- Hm. apply andb_true_iff. split.
     + apply forallb_forall. intros b Hb. apply (memb_In _ N_eqb_spec). auto.
     + apply forallb_forall. auto.
